@@ -1,7 +1,7 @@
 """C14 - candidate cycle collections are sound, nested and sufficient."""
 from lib import engine
 from lib.core import tier
-from units import k14_candidates
+from units import k14_candidates, k14b_builders
 
 LEVEL = "other"
 EXPLANATION = (
@@ -10,17 +10,19 @@ EXPLANATION = (
     "emits a candidate for an edge IF AND ONLY IF it is a non-tree edge whose endpoints both have tree nodes and whose root "
     "paths start with different vertices; the candidate carries this tree's id, the edge and the weight "
     "w(e)+d(root,src)+d(root,tgt) (K14a; tree given by tables that are K12's postcondition; table caps n<=4,m<=7, thorough "
-    "8/14).  Everything else is BOUNDED: Contract K14 is enforced as a BOUNDED stand-in on the real HortonCyclesBuilder / FVSCyclesBuilder / "
+    "8/14).  PROVED(<=4 trees x 3 candidates, thorough 6 x 4; loop contracts with quantified invariants): HortonCyclesBuilder and "
+    "FVSCyclesBuilder create one tree per vertex resp. per feedback vertex, in order, tree i with id i, and their candidate list is exactly "
+    "the concatenation of the trees' candidate lists - nothing dropped, added or duplicated (K14b; with K14a and K13 this is the nestedness "
+    "of the FVS collection in Horton's).  Everything else is BOUNDED: Contract K14 is enforced as a BOUNDED stand-in on the real HortonCyclesBuilder / FVSCyclesBuilder / "
     "ISOCyclesBuilder: every candidate (tree, edge) has both endpoints in the tree, its two root paths are "
     "vertex-disjoint except at the root (a simple cycle through the root), the recorded weight equals the true "
     "cycle weight and w(e)+d(r,u)+d(r,v) (Floyd-Warshall); FVS and ISO collections are subsets of Horton's as "
     "(root vertex, edge) pairs; greedy selection by weight under GF(2) independence from each collection reaches "
-    "the brute-force optimum weight and dimension.  The builders themselves (greedy_fvs choice, isometric-cycle graph) "
-    "are Boost.Graph templates CBMC cannot parse.")
+    "the brute-force optimum weight and dimension.  ISOCyclesBuilder (the isometric-cycle graph) is not under contract.")
 
 
 def run(rep):
-    engine.run_units(rep, k14_candidates.units(tier()))
+    engine.run_units(rep, k14_candidates.units(tier()) + k14b_builders.units(tier()))
     engine.run_native(rep, "e3_components", driver="e3_components[C14]", args=["--only", "C14"],
                       functions={"HortonCyclesBuilder": "bounded", "FVSCyclesBuilder": "bounded", "ISOCyclesBuilder": "bounded",
                                  "SPTree::create_candidate_cycles": "bounded"},
